@@ -11,16 +11,18 @@ class CallTimeout(BaseException):
 def limit(seconds):
     def handler(signum, frame):
         raise CallTimeout()
-    # The budget is processor time of this process (ITIMER_PROF), so that a machine busy with other work cannot turn a
-    # call that terminates into a timeout; a generous wall-clock limit backs it up (a call that sleeps forever).
+    # The budget is user-mode processor time of this process (ITIMER_VIRTUAL), so that a machine busy with other work cannot
+    # turn a call that terminates into a timeout - neither by taking the processor away nor by making the kernel work on the
+    # process's behalf (a machine short of memory charged seconds of page reclaim to a call of milliseconds: ITIMER_PROF
+    # counted them); a generous wall-clock limit backs it up (a call that sleeps forever).
     old = signal.signal(signal.SIGALRM, handler)
-    oldp = signal.signal(signal.SIGPROF, handler)
-    signal.setitimer(signal.ITIMER_PROF, seconds)
-    signal.setitimer(signal.ITIMER_REAL, seconds * 20 + 30)
+    oldp = signal.signal(signal.SIGVTALRM, handler)
+    signal.setitimer(signal.ITIMER_VIRTUAL, seconds)
+    signal.setitimer(signal.ITIMER_REAL, seconds * 40 + 60)
     try:
         yield
     finally:
-        signal.setitimer(signal.ITIMER_PROF, 0)
+        signal.setitimer(signal.ITIMER_VIRTUAL, 0)
         signal.setitimer(signal.ITIMER_REAL, 0)
         signal.signal(signal.SIGALRM, old)
-        signal.signal(signal.SIGPROF, oldp)
+        signal.signal(signal.SIGVTALRM, oldp)
